@@ -512,7 +512,13 @@ impl RunConfig {
                 let shutdown_manager = Arc::clone(&shutdown_manager);
                 // bind now, so we are listening before a previous instance is told to shut down
                 let listener = listener();
+                // the listener counts as a connection until it has stopped accepting,
+                // so a shutdown can't complete between an accept and the counting of that connection
+                #[cfg(feature = "graceful-shutdown")]
+                let listener_guard = shutdown_manager.connection_guard();
                 let future = async move {
+                    #[cfg(feature = "graceful-shutdown")]
+                    let _listener_guard = listener_guard;
                     accept(listener, descriptor, &shutdown_manager, true)
                         .await
                         .expect("Failed to accept message!");
@@ -733,9 +739,13 @@ async fn accept(
 
         #[cfg(feature = "graceful-shutdown")]
         let shutdown_manager = Arc::clone(shutdown_manager);
+        // count the connection before the task is spawned, so a shutdown can't miss it.
+        // The guard uncounts it when the task ends, also if it panics.
+        #[cfg(feature = "graceful-shutdown")]
+        let connection_guard = shutdown_manager.connection_guard();
         let _task = spawn(async move {
             #[cfg(feature = "graceful-shutdown")]
-            shutdown_manager.add_connection();
+            let _connection_guard = connection_guard;
             let _result = handle_connection(stream, addr, descriptor, || {
                 #[cfg(feature = "async-networking")]
                 {
@@ -754,8 +764,6 @@ async fn accept(
                 }
             })
             .await;
-            #[cfg(feature = "graceful-shutdown")]
-            shutdown_manager.remove_connection();
         })
         .await;
     }
